@@ -56,6 +56,10 @@ def make_case(seed, index, tier):
         for act in acts:
             if rng.random() < 0.15:
                 act['fail'] = True
+        if acts and rng.random() < 0.12:
+            # an activity that shares the fate of another task: it fails with that task's
+            # TaskCancelled - a failure that scopes do not wrap in Concurrent
+            rng.choice(acts)['fail'] = 'join'
     else:
         spec['count'] = rng.choice([0, 1, 1, 2, n, None, None, n + 1, max(0, n - 1)])
         spec['work'] = rng.choice([0, 0, 0.5, 1, 2])
@@ -110,6 +114,10 @@ def build_for(case):
                     arena.log(name, 'mid')
                     if act['d2']:
                         await (time + act['d2'])
+                    if act['fail'] == 'join':
+                        arena.log(name, 'raise')
+                        victims[number].cancel('no longer needed')
+                        return await victims[number]
                     if act['fail']:
                         arena.log(name, 'raise')
                         raise KeyError(name)
@@ -122,7 +130,22 @@ def build_for(case):
             coro.__name__ = coro.__qualname__ = 'act%d' % number
             return coro
 
+        victims = {}
+
+        async def sleeper():
+            await usim.eternity
+
         async def consumer():
+            if any(act['fail'] == 'join' for act in spec['acts']):
+                async with usim.Scope() as outer:
+                    for number, act in enumerate(spec['acts']):
+                        if act['fail'] == 'join':
+                            victims[number] = outer.do(sleeper(), volatile=True)
+                    await consumer_body()
+            else:
+                await consumer_body()
+
+        async def consumer_body():
             if spec['offset']:
                 await (time + spec['offset'])
             acts = [make_act(number, act) for number, act in enumerate(spec['acts'])]
@@ -135,6 +158,9 @@ def build_for(case):
                     except Concurrent as exc:
                         checker.result = ('concurrent', [str(child.args[0]) for child
                                                          in exc.children], time.now)
+                    except usim.TaskCancelled as exc:
+                        checker.result = ('taskcancelled', [exc.subject is task for task
+                                                            in victims.values()], time.now)
                 else:
                     items = []
                     arena.log('consumer', 'ask')
@@ -206,7 +232,38 @@ def check(sess, arena, checker, outcome, plan):
         if spec['how'] == 'collect':
             checker.stats['collects_judged'] += 1
             failing = [number for number, act in enumerate(acts) if act['fail']]
-            if failing:
+            joins = [number for number in failing if acts[number]['fail'] == 'join']
+            if joins:
+                checker.stats['collect_join_failures'] = checker.stats.get(
+                    'collect_join_failures', 0) + 1
+                first_fail = min(acts[i]['d1'] + acts[i]['d2'] for i in failing) + t0
+                first_join = min(acts[i]['d1'] + acts[i]['d2'] for i in joins) + t0
+                plain = [acts[i]['d1'] + acts[i]['d2'] + t0 for i in failing if i not in joins]
+                if result[0] not in ('concurrent', 'taskcancelled'):
+                    checker.violation('collect-failure-not-raised',
+                                      'activities %s fail (%s by the TaskCancelled of a task '
+                                      'they await) but collect returned %r' % (
+                                          failing, joins, result[1]))
+                else:
+                    if not plain or first_join < min(plain):
+                        if result[0] != 'taskcancelled' or not any(result[1]):
+                            checker.violation('collect-wrong-failures',
+                                              'the first failure is the TaskCancelled of an '
+                                              'awaited task, collect raised %r' % (result[:2],))
+                    elif min(plain) < first_join and result[0] != 'concurrent':
+                        checker.violation('collect-wrong-failures',
+                                          'the first failure is a KeyError, collect raised %r'
+                                          % (result[:2],))
+                    if result[2] != first_fail:
+                        checker.violation('collect-failure-time',
+                                          'collect failed at %r, first failure at %r' % (
+                                              result[2], first_fail))
+                    late = [ev for ev in sess.events
+                            if str(ev[1]).startswith('act') and ev[0] > first_fail]
+                    if late:
+                        checker.violation('collect-others-not-aborted',
+                                          'event %r after the failure at %r' % (late[0], first_fail))
+            elif failing:
                 checker.stats['collect_failures'] += 1
                 first_fail = min(acts[i]['d1'] + acts[i]['d2'] for i in failing) + t0
                 want = ['act%d' % number for number, when, failed in order if failed]
